@@ -121,7 +121,7 @@ namespace FM
 		Channel4* csmch;
 		
 
-		static  uint32 lfotable[8];
+		uint32 lfotable[8];			// depends on the rate of this chip: per instance, not shared
 	
 	private:
 		void	TimerA();
